@@ -17,9 +17,9 @@ from vf import harness, fork, spec, shapes
 from vf.harness import STATS
 
 PID = "C16"
-NAMINGS = {1: [[7], ["x"], ["3"]], 2: [[1, 2], ["b", "a"], ["2", "10"], ["a", "1"]],
-           3: [[1, 2, 3], [3, 1, 2], ["b", "a", "c"], ["1", "2", "a"], ["10", "9", "8"]],
-           4: [[1, 2, 3, 4], [4, 2, 3, 1], ["d", "a", "c", "b"], ["1", "b", "2", "a"]]}
+NAMINGS = {1: [[7], ["x"], ["3"]], 2: [[1, 2], ["b", "a"], ["2", "10"], ["a", "1"], [1, "a"], [2, "1"]],
+           3: [[1, 2, 3], [3, 1, 2], ["b", "a", "c"], ["1", "2", "a"], ["10", "9", "8"], [1, "a", 2], ["3", 1, 2]],
+           4: [[1, 2, 3, 4], [4, 2, 3, 1], ["d", "a", "c", "b"], ["1", "b", "2", "a"], [1, "b", 2, "a"]]}
 
 
 # ---------------------------------------------------------------- reference model
@@ -67,22 +67,22 @@ def universe_of(rk):
 
 # ---------------------------------------------------------------- comparison of all views
 def key(el):
-    return (el.type, el.value)
+    return (el.type.__name__, el.value)
 
 
 def check_ranking(r, buckets, where):
     """real Ranking r vs expected list of buckets (typed names)"""
     from corankco.element import Element
-    got = [sorted(key(e) for e in b) for b in r.buckets]
-    exp = [sorted((type(x), x) for x in b) for b in buckets]
+    got = [sorted((key(e) for e in b), key=repr) for b in r.buckets]
+    exp = [sorted(((type(x).__name__, x) for x in b), key=repr) for b in buckets]
     if got != exp:
         return f"{where}: buckets {r.buckets} != expected {buckets}"
-    if [sorted(key(e) for e in b) for b in r] != exp or len(r) != len(buckets):
+    if [sorted((key(e) for e in b), key=repr) for b in r] != exp or len(r) != len(buckets):
         return f"{where}: iteration / len disagree with buckets"
     pos, before = {}, 0
     for b in buckets:
         for x in b:
-            pos[(type(x), x)] = before + 1
+            pos[(type(x).__name__, x)] = before + 1
         before += len(b)
     gp = {key(e): p for e, p in r.positions.items()}
     if gp != pos:
@@ -90,7 +90,7 @@ def check_ranking(r, buckets, where):
     if {key(e) for e in r.domain} != set(pos) or r.nb_elements != len(pos):
         return f"{where}: domain / nb_elements disagree with buckets {r.buckets}"
     for i in range(len(buckets)):
-        if sorted(key(e) for e in r[i]) != exp[i]:
+        if sorted((key(e) for e in r[i]), key=repr) != exp[i]:
             return f"{where}: __getitem__({i}) disagrees"
     for b in r.buckets:
         for e in b:
@@ -110,7 +110,7 @@ def check_dataset(ds, rk, where, deep=True):
             return msg
         if ds[i] is not r:
             return f"{where}: __getitem__ disagrees with rankings"
-    ukeys = {(type(x), x) for x in uni}
+    ukeys = {(type(x).__name__, x) for x in uni}
     if {key(e) for e in ds.universe} != ukeys or ds.nb_elements != n:
         return f"{where}: universe {ds.universe} / nb_elements {ds.nb_elements} != union of the domains {uni}"
     e2i = {key(e): i for e, i in ds.mapping_elem_id.items()}
@@ -119,8 +119,8 @@ def check_dataset(ds, rk, where, deep=True):
         return f"{where}: mapping_elem_id {ds.mapping_elem_id} is not a bijection universe -> 0..{n - 1}"
     if set(i2e) != set(range(n)) or any(e2i[i2e[i]] != i for i in range(n)):
         return f"{where}: mapping_id_elem {ds.mapping_id_elem} is not the inverse of mapping_elem_id {ds.mapping_elem_id} on 0..{n - 1}"
-    types = {t for t, _ in ukeys}
-    exp_t = {int} if all(isinstance(x, int) for x in uni) else {str}
+    types = {t for t, _ in {key(e) for e in ds.universe}}
+    exp_t = {'int'} if all(isinstance(x, int) for x in uni) else {'str'}
     if types != exp_t:
         return f"{where}: element types {types}, expected {exp_t}"
     complete = all(sum(len(b) for b in r) == n for r in rk)
@@ -134,7 +134,7 @@ def check_dataset(ds, rk, where, deep=True):
         pos, bid, before = {}, {}, 0
         for k, b in enumerate(r):
             for x in b:
-                pos[(type(x), x)], bid[(type(x), x)] = before, k
+                pos[(type(x).__name__, x)], bid[(type(x).__name__, x)] = before, k
             before += len(b)
         for kx, i in e2i.items():
             if P[i][j] != pos.get(kx, -1) or Bk[i][j] != bid.get(kx, -1):
@@ -171,7 +171,7 @@ def check_dataset(ds, rk, where, deep=True):
                     if how == "elements":
                         sub = ds.sub_problem_from_elements({Element(x) for x in kept})
                     else:
-                        sub = ds.sub_problem_from_ids({e2i[(type(x), x)] for x in kept})
+                        sub = ds.sub_problem_from_ids({e2i[(type(x).__name__, x)] for x in kept})
                 except EmptyDatasetException:
                     if exp:
                         return f"{where}: projection on {kept} raised EmptyDatasetException"
@@ -248,7 +248,7 @@ def history_item(args):
                     removed = []
                     for x in uni:
                         cnt = sum(1 for r in rk if any(x in b for b in r))
-                        gone = (type(x), x) not in after and not (isinstance(x, str) and x.isdigit() and (int, int(x)) in after)
+                        gone = (type(x).__name__, x) not in after and not (isinstance(x, str) and x.isdigit() and ('int', int(x)) in after)
                         ratio = fork.term(cnt / m)      # the float quotient, as the library computes it (float rounding of the rate is outside the claim)
                         mdl = ctx.prove(ratio < t if gone else z3.Not(ratio < t))
                         if mdl is not None:
